@@ -264,7 +264,7 @@ def point_case(rng, kind):
     fp = field_point(case["fields"])
     T0 = Fraction(rng.randint(10, 16), 8)
     v0 = Fraction(rng.choice([44, 50, 56, 58, 60] if kind == "det" else [10, 12, 16, 20, 26]), 64)
-    if kind in ("deflk", "detk"):      # several enlargements of the bracket are needed
+    if kind in ("deflk", "detk", "gaveup"):   # several enlargements of the bracket are needed
         v0 = Fraction(10 if kind == "deflk" else 60, 64)
     w0 = -float(T0) * pot.derivT(fp, float(T0))
     p0 = -pot.evaluate(fp, float(T0))
@@ -273,13 +273,15 @@ def point_case(rng, kind):
     c2 = Fraction(p0 + w0 * g2 * float(v0) ** 2)
     if kind == "noroot":
         c2 = Fraction(float(c2) * 0.8)
+    if kind == "gaveup":      # detonation rule, LHS negative on the whole of (0, tmin]: no bracket
+        c2 = Fraction(float(c2) * 1.35)
     Tp = Fraction(float(T0) * (1 + rng.choice([-1, 1]) * rng.uniform(0.03, 0.2)))
     Tm = Fraction(float(T0) * (1 + rng.choice([-1, 1]) * rng.uniform(0.03, 0.2)))
     if kind == "deflk":
         Tp = Fraction(float(T0) * rng.uniform(0.70, 0.78))
-    if kind == "detk":
+    if kind in ("detk", "gaveup"):
         Tm = Fraction(float(T0) * rng.uniform(1.45, 1.6))
-    if kind in ("det", "detk"):
+    if kind in ("det", "detk", "gaveup"):
         case["Tn"] = Tp + rng.choice([Fraction(0), Fraction(5, 10 ** 11), -Fraction(5, 10 ** 11)])
         case["Tn"] = Fraction(float(case["Tn"]))
     elif kind == "edge":      # just outside the 1e-10 window: still a deflagration
@@ -310,8 +312,25 @@ def point_eval(ctx, case):
     goals, margin = [], abs(p["fmin"]) / scale
     info = dict(path=p["path"], T=float(T), v=float(v), tmin=p["tmin"])
     if float(T) == 0.0:
+        # the give-up outcome: certified through theorem no_bracket_returns_zero (the LHS is
+        # negative on (0, B], proved by interval bisection in T)
         info["path"] = "gaveup"
-        return None, 0.0, info
+        det = abs(float(case["Tn"]) - float(case["Tplus"])) < 1e-10
+        M = min(float(case["Tminus"]) / p["tmin"], 0.8)
+        if not det or not (0 < M <= 1) or p["path"] != "early":
+            return None, 0.0, info
+        B = Fraction(p["tmin"] * M) * (1 + Fraction(1, 10 ** 6))
+        grid_T = [float(B) * x / 64.0 for x in range(1, 65)]
+        margin = min(min(-f(t) for t in grid_T) / scale, abs(p["fmin"]) / scale,
+                     abs(abs(float(case["Tn"]) - float(case["Tplus"])) - 1e-10) / 1e-10,
+                     abs(float(case["Tminus"]) / p["tmin"] - 0.8))
+        goals.append(
+            "Goal findPlasmaProfilePoint (e0 %s (fun x _ => x)) %s = Some (0, 0).\n"
+            "Proof. apply (no_bracket_returns_zero _ _ _ _ _ _ _ _ _ _ %s); "
+            "[ev | ev | ev | split; ev | ev | intros T [HT1 HT2]; %s; "
+            "interval with (i_bisect T, i_depth 30, i_prec 60)]. Qed." % (tm, args, R(B), CBV))
+        info.update(det=True, B=float(B))
+        return goals, margin, info
     if p["path"] == "early":
         for rb, target in (("(fun x _ => x)", None),):
             goals.append(
@@ -359,7 +378,7 @@ def point_eval(ctx, case):
     return goals, margin, info
 
 
-def compile_parallel(ctx, files, jobs=6, timeout=600):
+def compile_parallel(ctx, files, jobs=4, timeout=600):
     """files: list of (label, path, payload). Returns list of (label, payload, err) failing"""
     bad, running = [], []
 
@@ -398,8 +417,8 @@ def stub_correspondence(ctx, proved):
             files.append(("straight_%d" % m, ctx.write("Cases/Straight_%d.v" % m, text),
                           jcase(case)))
     # decision path of findPlasmaProfilePoint
-    kinds = ["defl", "det", "edge", "noroot", "deflk", "detk"]
-    want = ctx.n(6, 48)
+    kinds = ["defl", "det", "edge", "noroot", "deflk", "detk", "gaveup"]
+    want = ctx.n(7, 49)
     done, tries, paths = 0, 0, {}
     while done < want and tries < 20 * want:
         kind = kinds[tries % len(kinds)]
@@ -424,6 +443,9 @@ def stub_correspondence(ctx, proved):
                 "Cases/Point_%d.v" % done, coq_header(case) + "\n".join(goals) + "\n"),
                 dict(case=jcase(case), impl=info)))
     ctx.log("decision-path cases:", json.dumps(paths, sort_keys=True))
+    if done < want:
+        ctx.broken.append("harness: only %d of %d certified decision cases could be built "
+                          "(margins too small)" % (done, want))
     bad = compile_parallel(ctx, files)
     for label, payload, err in bad:
         ctx.broken.append("correspondence: certified evaluation %s" % label)
@@ -443,11 +465,14 @@ MODELS = {
     # walls; top quark and gluon out of equilibrium (two species)
     "xSM_BM1_weak": dict(kind="xsm", geff=1077.5, gluon=True, Tn=100.0),
     # one-field quartic potential of tools/wgmodels.py
-    "quartic1": dict(kind="quartic", unit=1.0, Tn=83.0),
+    "quartic1": dict(kind="quartic", unit=1.0, Tn=83.0, tier="thorough"),
     # the SAME physics expressed in other units (everything dimensionful rescaled): the property
     # must not depend on the unit system. TeV: Tn = 0.083; units with Tn ~ 1
     "quartic1_TeV": dict(kind="quartic", unit=1e-3, Tn=83.0e-3),
-    "quartic1_T1": dict(kind="quartic", unit=1.0 / 80.0, Tn=83.0 / 80.0),
+    "quartic1_T1": dict(kind="quartic", unit=1.0 / 80.0, Tn=83.0 / 80.0, tier="thorough"),
+    "quartic1_u4": dict(kind="quartic", unit=1e-4, Tn=83.0e-4),
+    # only used to replay the recorded finding "minimiser-absolute-xatol" (Tn = 8.3e-7)
+    "quartic1_u8": dict(kind="quartic", unit=1e-8, Tn=83.0e-8, tier="recorded"),
 }
 _CACHE = {}
 
@@ -563,23 +588,29 @@ def flux_ref(ens_ik, vmid):
     return T[3, 0], T[3, 3]
 
 
-def run_profile(name, vw, widths, offsets, shape, seed, amp, errTol=1e-6, offEq=True):
+def run_profile(name, vw, widths, offsets, shape, seed, amp, errTol=1e-6, offEq=True,
+                regrid=True):
     """one call of the real EOM.findPlasmaProfile + independent recomputation"""
     from WallGo.containers import BoltzmannDeltas, WallParams
     from WallGo.polynomial import Polynomial
     veff, thermo, hydro, grid, eom, TN, nf = build_model(name)
     eom.errTol = errTol                     # read by findPlasmaProfilePoint at call time
     eom.includeOffEq = bool(offEq)          # the supplied moments count whatever this flag says
-    c1, c2, Tp, Tm, vMid = hydro.findHydroBoundaries(vw)
-    vp, vm, _, _ = hydro.findMatching(vw)
+    try:
+        c1, c2, Tp, Tm, vMid = hydro.findHydroBoundaries(vw)
+        vp, vm, _, _ = hydro.findMatching(vw)
+    except Exception as ex:                      # noqa: BLE001  (Hydrodynamics, not this property)
+        return dict(nohydro=True, why="Hydrodynamics raised " + repr(ex)[:80])
     out = dict(c1=c1, c2=c2, Tp=Tp, Tm=Tm, vMid=vMid, vp=vp, vm=vm, vJ=hydro.vJ, Tn=TN)
     if vMid is None or (c1 == 0 and c2 == 0):
         out["nohydro"] = True
+        out["why"] = "no hydrodynamic solution"
         return out
     out["branch"] = "detonation" if vw > hydro.vJ else ("hybrid" if vm < vw - 1e-9
                                                          else "deflagration")
     wp = WallParams(widths=np.array(widths[:nf]) / TN, offsets=np.array(offsets[:nf]))
-    eom._updateGrid(wp, vMid)               # pylint: disable=protected-access
+    if regrid:
+        eom._updateGrid(wp, vMid)           # pylint: disable=protected-access
     if not (thermo.TMinLowT <= Tm <= thermo.TMaxLowT and thermo.TMinHighT <= Tp <= thermo.TMaxHighT):
         # outside the traced phases the EOS is an extrapolation, not the potential's
         out["nohydro"] = True
@@ -657,6 +688,13 @@ def run_profile(name, vw, widths, offsets, shape, seed, amp, errTol=1e-6, offEq=
             - c2) / abs(c2),
         c1=(c1 + float(thermo.wHighT(Tp)) * vp / (1 - vp ** 2)) / abs(c1),
         wscale=float(thermo.wHighT(Tp)))
+    # sound speeds behind the wall: equilibrium (thermodynamics) and at FIXED field
+    # cs_f^2 = p_T / (T p_TT), p = -V(phi-, T)
+    hT = 2e-3 * Tm
+    pT = -dVdT(veff, fpL, Tm)
+    pTT = -(dVdT(veff, fpL, Tm + hT) - dVdT(veff, fpL, Tm - hT)) / (2 * hT)
+    out["cs_eq"] = math.sqrt(float(thermo.csqLowT(Tm)))
+    out["cs_fixed"] = math.sqrt(pT / (Tm * pTT)) if pT > 0 and pTT > 0 else float("nan")
     return out
 
 
@@ -677,10 +715,13 @@ def registered(ctx, key):
 
 
 def judge(ctx, name, vw, widths, offsets, shape, seed, amp, res, stats, errTol=1e-6,
-          offEq=True):
+          offEq=True, history=False, prefix=None):
     """evaluate the property on one profile; report failing inputs"""
     rep = dict(kind="profile", model=name, vw=vw, widths=widths, offsets=offsets,
                moments=shape, seed=seed, amp=amp, errTol=errTol, offEq=offEq)
+    if history:
+        rep["history"] = "call on an object that already served other calls on the same grid"
+        rep["prefix"] = list(prefix or [])
     TOL_CONS = tol_cons(errTol)
     fails = {}
 
@@ -692,6 +733,7 @@ def judge(ctx, name, vw, widths, offsets, shape, seed, amp, res, stats, errTol=1
     ctx.count("profile", rep, bucket=tag)
     # A-validation: hypotheses of the asymptote theorems
     h = res["hyp"]
+    hyp_bad = set()
     for nm, val, tol in (("V(phi+,T+) = -pHighT", h["VH"] / h["wscale"], 1e-6),
                          ("-T dV/dT(phi+,T+) = wHighT", h["wH"] / h["wscale"], 1e-5),
                          ("V(phi-,T-) = -pLowT", h["VL"] / h["wscale"], 1e-6),
@@ -700,6 +742,7 @@ def judge(ctx, name, vw, widths, offsets, shape, seed, amp, res, stats, errTol=1
                          ("c1 = -w+ g2 v+", h["c1"], 1e-12)):
         ctx.count("hypothesis_checked", nontrivial=False)
         if abs(val) > tol:
+            hyp_bad.add(nm)
             stats["hyp_bad"] = stats.get("hyp_bad", 0) + 1
             ctx.log("hypothesis of the asymptote theorems not met: %s off by %.2e (%s vw=%g)"
                     % (nm, val, name, vw))
@@ -720,9 +763,12 @@ def judge(ctx, name, vw, widths, offsets, shape, seed, amp, res, stats, errTol=1
                        "point solver outputs (flag=%s, point T>0: %s) [%s vw=%g]" % (
                            res["success"], [c[1] > 0 for c in calls], tag, vw), rep,
                        key="success-flag-semantics")
+    junction_bad = bool({"junction T30", "junction T33"} & hyp_bad)
     if not res["success"]:
+        # the property is conditional on success: nothing more is claimed for this profile
         stats["nosuccess"] = stats.get("nosuccess", 0) + 1
-        if shape == "none":
+        ctx.count("profile_without_success", nontrivial=False, bucket=tag)
+        if shape == "none" and not junction_bad:
             ctx.fail_input("equilibrium profile not found on a regular %s (%s, vw=%g): "
                            "successTemperatureProfile=False" % (br, name, vw), rep,
                            key="no-profile:" + br)
@@ -770,12 +816,19 @@ def judge(ctx, name, vw, widths, offsets, shape, seed, amp, res, stats, errTol=1
                                d["k"], d["r30"], d["T"], d["v"], d["path"], tag, vw),
                  dict(rep, k=d["k"]))
         if abs(d["r33"]) > TOL_CONS:
-            if d["path"] == "early" and shape != "none" and br in ("hybrid", "detonation"):
-                # (v- = cs on hybrids, v- -> cs on detonations just above the Jouguet velocity)
-                # success reported although the LHS has no root: the minimum is returned
+            # Class of the registered finding "success-without-root", by its MECHANISM: the point
+            # solver took the no-root path, the minimum of the LHS is positive, and the T33
+            # residual recomputed independently EQUALS that minimum (theorems
+            # no_root_returns_minimum + T33 residual = LHS); it can only arise from supplied
+            # moments or from boundary constants that violate the junction conditions; a
+            # residual above 1e-3 |c2| is not accepted under this key.
+            if d["path"] == "early" and 0 < d["fmin_rel"] < 1e-3 and \
+                    abs(d["r33"] - d["fmin_rel"]) <= TOL_CONS and \
+                    (shape != "none" or junction_bad):
                 stats.setdefault("finding", []).append(dict(rep, k=d["k"], r33=d["r33"],
                                                             T=d["T"], v=d["v"],
-                                                            fmin_rel=d["fmin_rel"]))
+                                                            fmin_rel=d["fmin_rel"],
+                                                            junction_bad=junction_bad))
                 continue
             fail("T33:" + d["path"], abs(d["r33"]),
                  "T33 not conserved at grid point %d: residual %.2e |c2| "
@@ -791,20 +844,32 @@ def judge(ctx, name, vw, widths, offsets, shape, seed, amp, res, stats, errTol=1
         stats["worst30"] = max(stats.get("worst30", 0.0), worst["r30"])
         stats["worst33"] = max(stats.get("worst33", 0.0), worst["r33"])
     # asymptotes (index 0: deep behind the wall; last: far in front)
+    if shape in ("none", "bump") and not res["success"]:
+        ctx.count("asymptote_not_claimed_no_success", nontrivial=False, bucket=br)
     if shape in ("none", "bump") and res["success"]:
         T, v = res["T"], res["v"]
         eb = max(abs(T[0] / res["Tm"] - 1), abs(v[0] + res["vm"]))
         ef = max(abs(T[-1] / res["Tp"] - 1), abs(v[-1] + res["vp"]))
         tol_a = TOL_ASYM if shape == "none" else 10 * TOL_ASYM   # moments do not vanish at the ends
         p0 = res["points"][0]
-        if eb > tol_a and br == "detonation" and p0["tmin"] < res["Tm"] * (1 - 1e-7):
+        back_hyp = {"V(phi-,T-) = -pLowT", "-T dV/dT(phi-,T-) = wLowT", "junction T30",
+                    "junction T33"} & hyp_bad
+        front_hyp = {"V(phi+,T+) = -pHighT", "-T dV/dT(phi+,T+) = wHighT"} & hyp_bad
+        if back_hyp:      # premises of asymptote_back measured false: the theorem says nothing
+            ctx.count("asymptote_skipped_hypothesis", nontrivial=False, bucket="back:" + br)
+            eb = 0.0
+        if front_hyp:
+            ctx.count("asymptote_skipped_hypothesis", nontrivial=False, bucket="front:" + br)
+            ef = 0.0
+        if eb > tol_a and br == "detonation" and p0["tmin"] < res["Tm"] * (1 - 1e-7) and \
+                res["cs_eq"] < res["vm"] < res["cs_fixed"]:
             # The hydrodynamic state (T-, v-) itself lies ABOVE the minimiser of the LHS at the
             # last point behind the wall (v- is supersonic for the equilibrium sound speed but
             # subsonic for the sound speed at fixed field); by theorem branch_rule the detonation
             # rule can only return roots <= minimiser, so it cannot tend to (T-, -v-).
             stats.setdefault("finding2", []).append(dict(
                 rep, Tminus=res["Tm"], vminus=res["vm"], T_back=T[0], v_back=v[0],
-                minimiser_back=p0["tmin"], err=eb))
+                minimiser_back=p0["tmin"], cs_eq=res["cs_eq"], cs_fixed=res["cs_fixed"], err=eb))
             eb = 0.0
         stats["worst_asym"] = max(stats.get("worst_asym", 0.0), eb, ef)
         if max(eb, ef) >= stats.get("worst_asym", 0.0):
@@ -853,8 +918,60 @@ def direct_validation(ctx):
                             "below T- (back: T=%.8g, T-=%.8g)" % (res["T"][0], res["Tm"]))
         except Exception as ex:                          # noqa: BLE001
             ctx.log("replay of findings/C04_detonation_wrong_root.json raised %r" % ex)
+    # the RECORDED input of "minimiser-absolute-xatol" (unit system with T ~ 1e-6)
+    rpath = os.path.join(vlib.VERIF, "findings", "C04_minimiser_xatol.json")
+    if os.path.exists(rpath):
+        with open(rpath) as fh:
+            ri = json.load(fh)
+        try:
+            res = run_profile(ri["model"], ri["vw"], ri["widths"], ri["offsets"], ri["moments"],
+                              ri["seed"], ri["amp"], errTol=ri.get("errTol", 1e-6))
+            ctx.count("recorded_finding_replayed", nontrivial=False)
+            if res.get("nohydro"):
+                ctx.log("recorded input findings/C04_minimiser_xatol.json: no profile (%s)" %
+                        res.get("why"))
+            else:
+                span = 2 * max(res["Tp"], res["Tm"])
+                tol = tol_cons(ri.get("errTol", 1e-6))
+                pts = res["points"]
+                mech = span < 1e-5 and res["success"] and all(
+                    d["path"] == "early" and abs(d["tmin"] / span - 0.3819660112501051) < 1e-5
+                    and d["fmin_rel"] > 0 and abs(d["r33"] - d["fmin_rel"]) <= tol
+                    and abs(d["r30"]) <= tol for d in pts)
+                worst = max(pts, key=lambda d: abs(d["r33"]))
+                if mech and abs(worst["r33"]) > tol:
+                    top = {k: ri[k] for k in ("model", "vw", "widths", "offsets", "moments",
+                                              "seed", "amp")}
+                    top.update(kind="profile", errTol=ri.get("errTol", 1e-6), k=worst["k"],
+                               r33=worst["r33"], tmin_over_span=worst["tmin"] / span, span=span)
+                    what = ("unit system with 2 max(T+,T-) = %.3g < 1e-5: minimize_scalar (absolute "
+                            "xatol=1e-5) stops at its first golden-section point, all %d points "
+                            "take the no-root return with success=True, T33 off by %.2e |c2|, "
+                            "back/front ends %.1f%%/%.1f%% off (model %s vw=%g)" % (
+                                span, len(pts), worst["r33"],
+                                100 * abs(res["T"][0] / res["Tm"] - 1),
+                                100 * abs(res["T"][-1] / res["Tp"] - 1), ri["model"], ri["vw"]))
+                    ctx.cov["finding_minimiser_absolute_xatol"] = top
+                    if registered(ctx, "minimiser-absolute-xatol"):
+                        ctx.fail_input(what, top, key="minimiser-absolute-xatol")
+                    else:
+                        ctx.log("FINDING (not registered in known_findings.json, not counted):",
+                                what)
+                elif abs(worst["r33"]) > tol:
+                    ctx.fail_input("recorded small-unit input: T33 off by %.2e |c2| and NOT by the "
+                                   "recorded mechanism" % worst["r33"], dict(ri, k=worst["k"]),
+                                   key="T33:" + worst["path"])
+                else:
+                    ctx.log("recorded input findings/C04_minimiser_xatol.json now conserves "
+                            "T33 (worst %.2e)" % worst["r33"])
+        except Exception as ex:                          # noqa: BLE001
+            import traceback
+            ctx.log("replay of findings/C04_minimiser_xatol.json raised", traceback.format_exc())
     # (model, velocity window) -- windows relative to the model's own cs / vJ, see below
     for name in MODELS:
+        tier = MODELS[name].get("tier")
+        if tier == "recorded" or (tier == "thorough" and ctx.quick):
+            continue
         _, thermo, hydro, _, _, TN, _ = build_model(name)
         vJ = hydro.vJ
         cs = math.sqrt(float(thermo.csqLowT(TN)))
@@ -866,16 +983,19 @@ def direct_validation(ctx):
             # weak transition: (T+ - Tn)/Tn < 1e-3 for subsonic walls, v+ > 1/3
             vws = [rng.uniform(0.35, 0.44) for _ in range(nd)] + [rng.uniform(0.2, 0.33)]
         else:
-            vws = [rng.uniform(max(hydro.vMin, 0.05) + 0.02, cs - 0.02) for _ in range(nd)]
+            vws = [rng.uniform(max(hydro.vMin, 0.01) + 0.005, cs - 0.002) for _ in range(nd)]
             # one slow wall per model (largest dLHS/dT at the root)
-            vws.append(rng.uniform(max(hydro.vMin, 0.05) + 0.02, 0.3))
-        # (quartic1: the broken phase ends at its spinodal; stay where T- is tabulated)
-        hyb_hi = min(vJ - 0.004, cs + 0.02) if name.startswith("quartic1") else vJ - 0.004
-        vws += [rng.uniform(cs + 0.004, hyb_hi) for _ in range(nh)]
-        vws += [rng.uniform(vJ + 0.01, 0.95) for _ in range(nt)]
-        vws.append(rng.uniform(vJ + 0.003, vJ + 0.02))       # detonation just above Jouguet
+            vws.append(rng.uniform(max(hydro.vMin, 0.01) + 0.005, 0.3))
+        # whole hybrid window; profiles whose T-/T+ leave the tabulated phases or whose measured
+        # junction conditions fail are handled by the measurements in run_profile / judge
+        vws += [rng.uniform(cs + 0.001, vJ - 0.001) for _ in range(nh)]
+        vws += [rng.uniform(vJ + 0.01, 0.99) for _ in range(nt)]
+        vws.append(rng.uniform(vJ + 0.0005, vJ + 0.02))      # detonation just above Jouguet
         for vw in vws:
             plan.append((name, round(vw, 4)))
+    first_of = {}
+    for name, vw in plan:
+        first_of.setdefault(name, (name, vw))
     for name, vw in plan:
         widths = [round(rng.uniform(3.0, 8.0), 3), round(rng.uniform(3.0, 8.0), 3)]
         offsets = [0.0, round(rng.uniform(-0.3, 0.3), 3)]
@@ -894,13 +1014,32 @@ def direct_validation(ctx):
                                key="raises")
                 continue
             if res.get("nohydro"):
-                ctx.count("profile_skipped_no_hydro", nontrivial=False)
+                ctx.count("profile_skipped_no_hydro", nontrivial=False,
+                          bucket=str(res.get("why"))[:40])
                 break
             judge(ctx, name, vw, widths, offsets, shape, seed, amp, res, stats, offEq=offEq)
             if shape == "none":
                 # the same equilibrium profile with the solver's DEFAULT tolerance
                 res3 = run_profile(name, vw, widths, offsets, shape, seed, amp, errTol=1e-3)
                 judge(ctx, name, vw, widths, offsets, shape, seed, amp, res3, stats, errTol=1e-3)
+            if shape == "flat" and (not ctx.quick or (name, vw) == first_of.get(name)):
+                # HISTORY on one object: more calls of findPlasmaProfile with other moments,
+                # tolerance and includeOffEq and NO _updateGrid in between (this is what
+                # wallPressure does); every call is judged on its own by the independent
+                # recomputation, so any state kept between calls shows up
+                prefix = [dict(moments="flat", seed=seed, amp=amp, errTol=1e-6, offEq=offEq,
+                               regrid=True)]
+                for hshape, herr, hoff in (("bump", 1e-6, True), ("none", 1e-3, False),
+                                           ("flat", 1e-6, False), ("bump", 1e-6, True)):
+                    hseed = rng.randint(0, 10 ** 9)
+                    hamp = 10 ** rng.uniform(-4, -2.7) if hshape != "none" else 0.0
+                    resh = run_profile(name, vw, widths, offsets, hshape, hseed, hamp,
+                                       errTol=herr, offEq=hoff, regrid=False)
+                    ctx.count("history_call", nontrivial=False)
+                    judge(ctx, name, vw, widths, offsets, hshape, hseed, hamp, resh, stats,
+                          errTol=herr, offEq=hoff, history=True, prefix=prefix)
+                    prefix.append(dict(moments=hshape, seed=hseed, amp=hamp, errTol=herr,
+                                       offEq=hoff, regrid=False))
             if len(ctx.cov["samples"]) < 6 and shape == "bump":
                 ctx.sample(dict(model=name, vw=vw, branch=res["branch"],
                                 Tp_minus_Tn_rel=(res["Tp"] - res["Tn"]) / res["Tn"],
@@ -946,9 +1085,10 @@ def direct_validation(ctx):
                                            "seed", "amp")}
             base.update(kind="profile", errTol=rec_in.get("errTol", 1e-6))
             for d in res.get("points", []):
-                if d["path"] == "early" and res["branch"] in ("hybrid", "detonation") and \
-                        res["success"] and \
-                        abs(d["r33"]) > tol_cons(base["errTol"]):
+                if d["path"] == "early" and res["success"] and \
+                        abs(d["r33"]) > tol_cons(base["errTol"]) and \
+                        0 < d["fmin_rel"] < 1e-3 and \
+                        abs(d["r33"] - d["fmin_rel"]) <= tol_cons(base["errTol"]):
                     recorded.append(dict(base, k=d["k"], r33=d["r33"], T=d["T"], v=d["v"],
                                          fmin_rel=d["fmin_rel"]))
             if not recorded:
@@ -979,6 +1119,178 @@ def direct_validation(ctx):
             ctx.log("FINDING (not registered in known_findings.json, not counted):", what)
             ctx.log("  replay: ./check C04 --replay",
                     os.path.join(ctx.bdir, "finding_success_without_root.json"))
+
+
+
+# =====================================================================================
+# end to end: the profile that wallPressure / solveWall hand back (WallGoResults)
+# =====================================================================================
+
+def run_e2e(name, vw, improve, errTol=1e-5, solve=False):
+    """LTE run of the real EOM.wallPressure (or findWallVelocityDeflagrationHybrid): the
+    returned BoltzmannBackground / WallGoResults is judged, and every findPlasmaProfile call
+    made on the way is observed from outside (arguments, in their order, and results)."""
+    from WallGo.containers import WallParams
+    veff, thermo, hydro, grid, eom, TN, nf = build_model(name)
+    eom.errTol = errTol
+    eom.includeOffEq = False
+    eom.forceImproveConvergence = bool(improve)
+    out = dict(kind="e2e", model=name, vw=vw, improve=bool(improve), errTol=errTol, bad=[])
+    if eom.forceEnergyConservation is not True:
+        out["bad"].append("EOM built with default arguments has forceEnergyConservation=%r" %
+                          eom.forceEnergyConservation)
+    calls = []
+    orig = eom.findPlasmaProfile
+
+    def spy(*a, **k):
+        r = orig(*a, **k)
+        calls.append(dict(args=a, kw=k, T=np.array(r[0], dtype=float), v=np.array(r[1], dtype=float),
+                          success=bool(eom.successTemperatureProfile)))
+        return r
+    eom.findPlasmaProfile = spy
+    try:
+        if solve:
+            res = eom.findWallVelocityDeflagrationHybrid()
+            vw = res.wallVelocity
+            Tprof, vprof, fprof = res.temperatureProfile, res.velocityProfile, res.fieldProfiles
+            out.update(vw=vw, solve=True, success=bool(res.success))
+            if vw is None:
+                out["skipped"] = "no deflagration/hybrid solution"
+                return out
+        else:
+            guess = WallParams(widths=np.array([5.0 / TN] * nf), offsets=np.array([0.0] * nf))
+            _, wp, _, bg, hres = eom.wallPressure(vw, guess)
+            Tprof, vprof, fprof = bg.temperatureProfile, bg.velocityProfile, bg.fieldProfiles
+    finally:
+        del eom.findPlasmaProfile
+        eom.forceImproveConvergence = False
+    c1, c2, Tp, Tm, vMid = hydro.findHydroBoundaries(vw)
+    vp, vm, _, _ = hydro.findMatching(vw)
+    out.update(branch="detonation" if vw > hydro.vJ else ("hybrid" if vm < vw - 1e-9
+                                                           else "deflagration"),
+               Tp=Tp, Tm=Tm, vp=vp, vm=vm, ncalls=len(calls))
+    Tprof, vprof = np.asarray(Tprof, dtype=float), np.asarray(vprof, dtype=float)
+    n = len(grid.xiValues)
+    tol = tol_cons(errTol)
+    bad = out["bad"]
+    if len(Tprof) != n + 2 or len(vprof) != n + 2:
+        bad.append("returned profile has %d entries for %d grid points" % (len(Tprof), n))
+        return out
+    if Tprof[0] != Tm or Tprof[-1] != Tp:
+        bad.append("end entries (%.10g, %.10g) are not (T-, T+) = (%.10g, %.10g)" % (
+            Tprof[0], Tprof[-1], Tm, Tp))
+    # every observed call receives the hydrodynamic constants, each in its own position
+    want = dict(c1=c1, c2=c2, velocityMid=vMid, Tplus=Tp, Tminus=Tm)
+    pos = dict(c1=0, c2=1, velocityMid=2, Tplus=6, Tminus=7)
+    last = None
+    for c in calls:
+        if np.array_equal(np.asarray(c["args"][3]), np.asarray(fprof)[1:-1]):
+            last = c
+    for c in (calls if not solve else [x for x in [last] if x is not None]):
+        for nm, i in pos.items():
+            got = c["args"][i] if i < len(c["args"]) else c["kw"].get(nm)
+            if got is None or abs(float(got) - want[nm]) > 1e-12 * abs(want[nm]):
+                bad.append("findPlasmaProfile received %s = %r, hydrodynamics gives %.10g" % (
+                    nm, got, want[nm]))
+                break
+        if bad:
+            break
+    if not calls:
+        bad.append("findPlasmaProfile was never called")
+    if last is None:
+        bad.append("no findPlasmaProfile call was made with the field profile that is returned: "
+                   "the returned plasma profile does not belong to the returned wall")
+    elif not (np.array_equal(last["T"], Tprof[1:-1]) and np.array_equal(last["v"], vprof[1:-1])):
+        bad.append("returned interior profile differs from the output of the findPlasmaProfile "
+                   "call made with the returned field profile")
+    # independent recomputation on what is returned
+    r30 = r33 = 0.0
+    dphi = last["args"][4] if last is not None else None
+    for k in range(1, n + 1):
+        fp = fprof.getFieldPoint(k)
+        T, v = float(Tprof[k]), float(vprof[k])
+        if not (T > 0 and abs(v) < 1):
+            bad.append("unphysical state at point %d: T=%g v=%g" % (k, T, v))
+            continue
+        w = -T * dVdT(veff, fp, T)
+        g2 = 1.0 / (1.0 - v * v)
+        r30 = max(r30, abs(w * g2 * v - c1) / abs(c1))
+        if dphi is not None:
+            dp = np.asarray(dphi.getFieldPoint(k - 1), dtype=float)
+            V = float(np.ravel(veff.evaluate(fp, T))[0])
+            r33 = max(r33, abs(0.5 * float(np.sum(dp ** 2)) - V + w * g2 * v * v - c2) / abs(c2))
+    out.update(r30=r30, r33=r33)
+    if calls and not calls[-1]["success"]:
+        out["skipped"] = "successTemperatureProfile is False"
+        return out
+    if r30 > tol:
+        bad.append("T30 of the returned profile off by %.2e |c1|" % r30)
+    if r33 > tol:
+        bad.append("T33 of the returned profile off by %.2e |c2|" % r33)
+    inside = thermo.TMinLowT <= Tm <= thermo.TMaxLowT and thermo.TMinHighT <= Tp <= thermo.TMaxHighT
+    eb = max(abs(Tprof[1] / Tm - 1), abs(vprof[1] + vm))
+    ef = max(abs(Tprof[-2] / Tp - 1), abs(vprof[-2] + vp))
+    out.update(asym_back=eb, asym_front=ef)
+    if inside and max(eb, ef) > TOL_ASYM:
+        bad.append("first/last interior point (T=%.8g v=%.6g | T=%.8g v=%.6g) instead of "
+                   "(T-=%.8g, -v-=%.6g | T+=%.8g, -v+=%.6g)" % (
+                       Tprof[1], vprof[1], Tprof[-2], vprof[-2], Tm, -vm, Tp, -vp))
+    return out
+
+
+def e2e_validation(ctx):
+    rng = ctx.rng
+    models = ["xSM_BM1", "quartic1_TeV"] if ctx.quick else \
+        [m for m in MODELS if MODELS[m].get("tier") != "recorded"]
+    worst = dict(r30=0.0, r33=0.0, asym=0.0)
+    for name in models:
+        _, thermo, hydro, _, _, TN, _ = build_model(name)
+        cs = math.sqrt(float(thermo.csqLowT(TN)))
+        vJ = hydro.vJ
+        for lo, hi in ((0.2, cs - 0.02), (cs + 0.005, min(vJ - 0.005, cs + 0.02)),
+                       (vJ + 0.03, 0.9)):
+            vw = round(rng.uniform(lo, hi), 4)
+            for improve in ((False, True) if (not ctx.quick or name == models[0]) else
+                            (rng.random() < 0.5,)):
+                try:
+                    out = run_e2e(name, vw, improve)
+                except Exception as ex:                  # noqa: BLE001
+                    import traceback
+                    ctx.log("wallPressure raised", traceback.format_exc())
+                    ctx.fail_input("wallPressure raised %r (%s vw=%g)" % (ex, name, vw),
+                                   dict(kind="e2e", model=name, vw=vw, improve=improve),
+                                   key="e2e-raises")
+                    continue
+                ctx.count("e2e_wallPressure", dict(model=name, vw=vw, improve=improve),
+                          bucket="%s/%s/improve=%s" % (name, out.get("branch"), improve))
+                for k_, f_ in (("r30", "r30"), ("r33", "r33")):
+                    worst[k_] = max(worst[k_], out.get(f_, 0.0))
+                worst["asym"] = max(worst["asym"], out.get("asym_back", 0.0),
+                                    out.get("asym_front", 0.0))
+                if out["bad"]:
+                    ctx.fail_input("wallPressure(%s, vw=%g, LTE, forceImproveConvergence=%s) "
+                                   "returns a plasma profile that violates the property: %s" % (
+                                       name, vw, improve, "; ".join(out["bad"][:3])),
+                                   dict(kind="e2e", model=name, vw=vw, improve=improve,
+                                        errTol=out["errTol"]), key="e2e:" + out["bad"][0][:24])
+    # one full solve: WallGoResults.temperatureProfile / velocityProfile / fieldProfiles
+    name = "xSM_BM1" if ctx.quick else rng.choice(["xSM_BM1", "quartic1", "quartic1_TeV"])
+    try:
+        out = run_e2e(name, None, False, errTol=1e-4, solve=True)
+        ctx.count("e2e_solveWall", dict(model=name), bucket=name)
+        if out["bad"]:
+            ctx.fail_input("findWallVelocityDeflagrationHybrid(%s): WallGoResults profile violates "
+                           "the property at vw=%s: %s" % (name, out.get("vw"),
+                                                          "; ".join(out["bad"][:3])),
+                           dict(kind="e2e", model=name, solve=True), key="e2e-solveWall")
+        worst["r30"] = max(worst["r30"], out.get("r30", 0.0))
+    except Exception as ex:                              # noqa: BLE001
+        import traceback
+        ctx.log("solveWall raised", traceback.format_exc())
+        ctx.fail_input("findWallVelocityDeflagrationHybrid raised %r (%s)" % (ex, name),
+                       dict(kind="e2e", model=name, solve=True), key="e2e-raises")
+    ctx.log("end to end (wallPressure / solveWall, LTE): worst |dT30|/|c1| = %.2e, |dT33|/|c2| = "
+            "%.2e, asymptote error = %.2e" % (worst["r30"], worst["r33"], worst["asym"]))
 
 
 # =====================================================================================
@@ -1042,6 +1354,7 @@ def run(ctx):
         ctx.log("stub correspondence raised", traceback.format_exc())
         ctx.broken.append("harness: stub correspondence raised %r" % ex)
     direct_validation(ctx)
+    e2e_validation(ctx)
     ctx.cov["rule"] = (
         "stub cases: random dyadic potentials -aT^4+bST^2+cS^2, 1-3 particles, 2 fields, "
         "anisotropic Delta tables (4 columns, random column index); decision cases built "
@@ -1065,10 +1378,18 @@ def run(ctx):
 
 def replay(rep):
     print(json.dumps({k: v for k, v in rep.items() if k not in ("T", "v")}, indent=1))
+    if rep.get("kind") == "e2e":
+        out = run_e2e(rep["model"], rep["vw"], rep["improve"], rep.get("errTol", 1e-5))
+        print(json.dumps({k: v for k, v in out.items() if k != "points"}, indent=1, default=str))
+        return 1 if out.get("bad") else 0
     if rep.get("kind") == "profile" or "model" in rep:
+        for pr in rep.get("prefix", []):
+            run_profile(rep["model"], rep["vw"], rep["widths"], rep["offsets"], pr["moments"],
+                        pr["seed"], pr["amp"], errTol=pr["errTol"], offEq=pr["offEq"],
+                        regrid=pr["regrid"])
         res = run_profile(rep["model"], rep["vw"], rep["widths"], rep["offsets"],
                           rep["moments"], rep["seed"], rep["amp"], errTol=rep.get("errTol", 1e-6),
-                          offEq=rep.get("offEq", True))
+                          offEq=rep.get("offEq", True), regrid=not rep.get("prefix"))
         TOL_CONS = tol_cons(rep.get("errTol", 1e-6))
         print("branch", res["branch"], "success", res["success"], "T+ %.8g T- %.8g v+ %.8g v- %.8g"
               % (res["Tp"], res["Tm"], res["vp"], res["vm"]))
